@@ -23,11 +23,24 @@ type halter struct {
 	d1Before    bool
 	endedBefore bool // the analysis had already ended by itself when the halt was requested
 	done        bool
+	viaCtx      bool // halts by cancelling the context the analysis was launched with, not through Handle.Halt
 	pv          search.PV
 }
 
 // SessionC15 drives Iterative.Launch / Handle.Halt / TimeControl directly.
-func SessionC15(t *tape.Tape) *core.RunResult {
+func SessionC15(t *tape.Tape) *core.RunResult { return sessionIter(t, "C15") }
+
+// SessionC12Iter is the same kind of session judged for C12 at the level of the analysis: there is
+// always at least one halter (Handle.Halt by one or two clients, the launch context cancelled, the
+// hard-limit timer), halting at a tape-chosen instant while the search is parked mid-tree. Judged:
+// nothing a halted analysis reports after the halt was requested is anything but a completed
+// iteration's true result ("reports that it was halted rather than a score"), the board is handed
+// back as received once Halt has returned and once the analysis has ended, and it does end.
+func SessionC12Iter(t *tape.Tape) *core.RunResult { return sessionIter(t, "C12") }
+
+var c12Kinds = map[string]bool{"halted-search-reports-result": true, "board-not-restored-after-halt": true, "search-does-not-end": true}
+
+func sessionIter(t *tape.Tape, prop string) *core.RunResult {
 	res := core.NewResult()
 	k := NewKernel(t, res)
 	defer k.Uninstall()
@@ -37,7 +50,7 @@ func SessionC15(t *tape.Tape) *core.RunResult {
 			k.PassThrough(p)
 		}
 	}
-	if t.Chance(1, 3) {
+	if prop == "C15" && t.Chance(1, 3) {
 		return sessionC15Engine(t, res, k)
 	}
 	b, g, ok := sb.PlayHistory(t, res, t.Chance(1, 2), 6, 1)
@@ -85,19 +98,28 @@ func SessionC15(t *tape.Tape) *core.RunResult {
 	res.Tracef("%s limit=%d table=%v timecontrol=%v on %q", cfg, limit, useTT, opt.TimeControl, g.FEN())
 
 	fork := b.Fork()
+	snapF := sb.Snap(fork)
 	it := &searchctl.Iterative{Root: root}
 	start := time.Now()
 	h, out := it.Launch(ctx, fork, tt, eval.Random{}, opt)
 
-	nHalters := t.Weighted([]int{3, 5, 2})
+	hw := []int{3, 5, 2}
+	if prop == "C12" {
+		hw = []int{0, 5, 3}
+	}
+	nHalters := t.Weighted(hw)
 	var halters []*halter
 	for i := 0; i < nHalters; i++ {
-		hl := &halter{name: fmt.Sprintf("client%c#1", 'A'+i)}
+		hl := &halter{name: fmt.Sprintf("client%c#1", 'A'+i), viaCtx: t.Chance(1, 4)}
 		halters = append(halters, hl)
 		pfx := fmt.Sprintf("client%c", 'A'+i)
 		go func() {
 			k.Park(pfx + ".halt")
-			hl.pv = h.Halt()
+			if hl.viaCtx {
+				cancel()
+			} else {
+				hl.pv = h.Halt()
+			}
 			hl.done = true
 			k.Park(pfx + ".done")
 		}()
@@ -105,12 +127,13 @@ func SessionC15(t *tape.Tape) *core.RunResult {
 	readerKeepsUp := t.Chance(2, 3)
 
 	var got []search.PV
+	var gotAfterHalt []bool // the report was taken from the channel after a halt had been requested
 	closed := false
-	closedAt := time.Duration(0)
 	d1Complete := false // the search passed iter.sent for depth 1, or ended
 	hardFired := false
 	steps := 0
 	haltRequested := false
+	ctxCancelled := false
 	read := func() {
 		for {
 			select {
@@ -118,11 +141,12 @@ func SessionC15(t *tape.Tape) *core.RunResult {
 				if !ok {
 					if !closed {
 						closed = true
-						closedAt = time.Since(start)
+
 					}
 					return
 				}
 				got = append(got, pv)
+				gotAfterHalt = append(gotAfterHalt, haltRequested)
 				res.Tracef("[%d] read depth=%d score=%v pv=%v", steps, pv.Depth, pv.Score, pv.Moves)
 			default:
 				return
@@ -137,7 +161,17 @@ func SessionC15(t *tape.Tape) *core.RunResult {
 		return m
 	}
 	fail := func(kind, f string, a ...any) *core.RunResult {
-		res.Violate("C15", kind, steps, f, a...)
+		if prop == "C12" && !c12Kinds[kind] {
+			// C15's business (and C15's own check reports it): no verdict here
+			res.Inconclusive["c15-matter:"+kind]++
+			k.Drain()
+			cancel()
+			return res
+		}
+		if prop == "C15" && c12Kinds[kind] && kind != "search-does-not-end" {
+			panic("sim: a C12 verdict in a C15 session")
+		}
+		res.Violate(prop, kind, steps, f, a...)
 		k.Drain()
 		cancel()
 		return res
@@ -218,6 +252,10 @@ func SessionC15(t *tape.Tape) *core.RunResult {
 						read()
 						hl.endedBefore = closed
 						haltRequested = true
+						if hl.viaCtx {
+							ctxCancelled = true
+							res.Probe("halt-by-context-cancellation")
+						}
 						res.Fault("halt@step")
 						if !d1Complete {
 							res.Probe("halt-before-depth-1")
@@ -246,21 +284,26 @@ func SessionC15(t *tape.Tape) *core.RunResult {
 		// (3) a halter that has returned
 		for _, hl := range halters {
 			if hl.done && hl.released > 0 && hl.maxBefore >= 0 {
-				searchEnded := false
-				select {
-				case <-ctx.Done():
-				default:
+				read()
+				if hl.viaCtx {
+					hl.maxBefore = -1 // nothing is returned to a halter that cancels the context
+					continue
 				}
-				_ = searchEnded
-				closedOrEnded(out, &closed, &got, start, &closedAt)
-				if hl.pv.Depth < 1 && !hl.endedBefore {
+				// Halt has returned, so the search goroutine has exited: the board is as it was handed over
+				if d := snapF.Diff(sb.Snap(fork)); d != "" && prop == "C12" {
+					return fail("board-not-restored-after-halt", "Halt() has returned (to %s), yet the board the analysis was given differs from the one handed over in %s: the search is still inside its tree", hl.name, d)
+				}
+				if hl.pv.Depth < 1 && !hl.endedBefore && !ctxCancelled {
 					return fail("halt-returned-before-depth-1", "Halt() returned %v (no completed iteration) although the analysis was still running when the halt was requested (first iteration complete at that moment: %v)", hl.pv, hl.d1Before)
+				}
+				if hl.pv.Depth >= 1 && (hl.pv.Score.IsInvalid() || (len(hl.pv.Moves) == 0 && len(cur.LegalMoves()) > 0)) {
+					return fail("halt-returned-incomplete-iteration", "Halt() returned depth=%d score=%v pv=%v: not the result of a completed iteration", hl.pv.Depth, hl.pv.Score, hl.pv.Moves)
 				}
 				if hl.pv.Depth < hl.maxBefore {
 					return fail("halt-returned-shallower-result", "Halt() returned depth %d although depth %d had been reported before the halt was requested", hl.pv.Depth, hl.maxBefore)
 				}
 				if hl.pv.Depth >= 1 && !useTT {
-					_, sc, mv, err := direct.Search(ctx, &search.Context{TT: search.NoTranspositionTable{}}, b.Fork(), hl.pv.Depth)
+					_, sc, mv, err := direct.Search(sb.BudgetCtx(3000000), &search.Context{TT: search.NoTranspositionTable{}}, b.Fork(), hl.pv.Depth)
 					if err == nil && (sc != hl.pv.Score || !sameMoves(mv, hl.pv.Moves)) {
 						return fail("halt-returned-incomplete-iteration", "Halt() returned depth=%d score=%v pv=%v; a direct depth-%d search gives %v %v", hl.pv.Depth, hl.pv.Score, hl.pv.Moves, hl.pv.Depth, sc, mv)
 					}
@@ -314,17 +357,28 @@ func SessionC15(t *tape.Tape) *core.RunResult {
 	}
 	// (1) reported depths and contents
 	prev := 0
-	for _, pv := range got {
-		if pv.Depth <= prev {
+	for i, pv := range got {
+		if prop == "C15" && pv.Depth <= prev {
 			return fail("depths-not-increasing", "depth %d reported after depth %d", pv.Depth, prev)
 		}
-		if readerKeepsUp && pv.Depth != prev+1 {
+		if prop == "C15" && readerKeepsUp && pv.Depth != prev+1 {
 			return fail("depth-skipped", "depth %d reported after depth %d although every iteration was read as it was sent", pv.Depth, prev)
 		}
 		prev = pv.Depth
+		if pv.Score.IsInvalid() || (len(pv.Moves) == 0 && len(cur.LegalMoves()) > 0) {
+			// (whatever the table: a report without a score or without a move is not a completed iteration)
+			kind := "iteration-differs-from-direct-search"
+			if prop == "C12" && gotAfterHalt[i] {
+				kind = "halted-search-reports-result"
+			}
+			return fail(kind, "the analysis reported depth=%d score=%v pv=%v (halt requested before it was read: %v): not the result of a completed iteration", pv.Depth, pv.Score, pv.Moves, gotAfterHalt[i])
+		}
 		if !useTT {
-			_, sc, mv, err := direct.Search(ctx, &search.Context{TT: search.NoTranspositionTable{}}, b.Fork(), pv.Depth)
+			_, sc, mv, err := direct.Search(sb.BudgetCtx(3000000), &search.Context{TT: search.NoTranspositionTable{}}, b.Fork(), pv.Depth)
 			if err == nil && (sc != pv.Score || !sameMoves(mv, pv.Moves)) {
+				if prop == "C12" && gotAfterHalt[i] {
+					return fail("halted-search-reports-result", "after the halt was requested the analysis reported depth=%d score=%v pv=%v, which is not the result of a completed depth-%d search (%v %v): a halted search must report that it was halted, not a score", pv.Depth, pv.Score, pv.Moves, pv.Depth, sc, mv)
+				}
 				return fail("iteration-differs-from-direct-search", "iteration depth=%d reported score=%v pv=%v; a direct depth-%d search gives %v %v (%s)", pv.Depth, pv.Score, pv.Moves, pv.Depth, sc, mv, cfg)
 			}
 		}
@@ -359,8 +413,11 @@ func SessionC15(t *tape.Tape) *core.RunResult {
 	if !closed {
 		res.Probe("still-open-without-limit")
 	}
-	if df := sb.Snap(b).Diff(sb.Snap(b)); df != "" {
-		_ = df
+	if closed && prop == "C12" && (haltRequested || hardFired) {
+		if d := snapF.Diff(sb.Snap(fork)); d != "" {
+			return fail("board-not-restored-after-halt", "the halted analysis has ended, yet the board it was given differs from the one handed over in %s", d)
+		}
+		res.Probe("board-compared-after-halted-analysis")
 	}
 	if !closed {
 		// the final halt is a simulated client too (the controller itself must never wait inside the code
@@ -404,24 +461,6 @@ func SessionC15(t *tape.Tape) *core.RunResult {
 	res.NonTrivial = len(got) >= 1 && k.evCount >= 5
 	res.Digest = fmt.Sprintf("%016x/%d", k.InterleavingHash(), len(got))
 	return res
-}
-
-func closedOrEnded(out <-chan search.PV, closed *bool, got *[]search.PV, start time.Time, closedAt *time.Duration) bool {
-	for {
-		select {
-		case pv, ok := <-out:
-			if !ok {
-				if !*closed {
-					*closed = true
-					*closedAt = time.Since(start)
-				}
-				return true
-			}
-			*got = append(*got, pv)
-		default:
-			return *closed
-		}
-	}
 }
 
 func sameMoves(a, b []board.Move) bool {
